@@ -13,32 +13,33 @@ import (
 // specification are generated (DESIGN.md 3.4).
 
 type Profile struct {
-	MaxProcs    int
-	MaxItems    int // stream length drawn from 0..MaxItems (index 0 -> 1 item)
-	LongStreams []int
-	Bufsizes    []int // index 0 first
-	MaxSlots    int
-	Params      bool
-	MultiOut    bool
-	FanIn       bool
-	FanOut      bool
-	NoPort      bool
-	Sinkless    bool
-	Custom      bool
-	CustomIdiom bool
-	Subdirs     bool
-	ParentAbs   bool
-	Extras      bool
-	Cores       bool
-	Recorders   bool
-	ParamSrc    bool
-	TwoSources  bool
-	RunTo       bool
-	Zip         bool
-	PadTo       bool
-	EmptyOuts   bool
-	Taggers     bool
-	Joins       bool
+	MaxProcs      int
+	MaxItems      int // stream length drawn from 0..MaxItems (index 0 -> 1 item)
+	LongStreams   []int
+	Bufsizes      []int // index 0 first
+	MaxSlots      int
+	Params        bool
+	MultiOut      bool
+	FanIn         bool
+	FanOut        bool
+	NoPort        bool
+	Sinkless      bool
+	Custom        bool
+	CustomIdiom   bool
+	Subdirs       bool
+	ParentAbs     bool
+	NoOtherDevice bool // with ParentAbs: no outputs on the second file system
+	Extras        bool
+	Cores         bool
+	Recorders     bool
+	ParamSrc      bool
+	TwoSources    bool
+	RunTo         bool
+	Zip           bool
+	PadTo         bool
+	EmptyOuts     bool
+	Taggers       bool
+	Joins         bool
 }
 
 type gen struct {
@@ -83,6 +84,7 @@ func (g *gen) swarm(p Profile) *Profile {
 	q.Custom = g.flag(p.Custom)
 	q.Subdirs = g.flag(p.Subdirs)
 	q.ParentAbs = g.flag(p.ParentAbs)
+	q.NoOtherDevice = p.NoOtherDevice
 	q.Extras = g.flag(p.Extras)
 	q.Cores = g.flag(p.Cores)
 	q.Recorders = g.flag(p.Recorders)
@@ -102,7 +104,10 @@ func (g *gen) dirPrefix() string {
 		opts = append(opts, "out/", "d1/d2/")
 	}
 	if g.p.ParentAbs && !g.same {
-		opts = append(opts, "../ext/", "/abs/", "/mnt/")
+		opts = append(opts, "../ext/", "/abs/")
+		if !g.p.NoOtherDevice {
+			opts = append(opts, "/mnt/") // another file system: finalizing fails with EXDEV
+		}
 	}
 	return opts[g.n(len(opts))]
 }
@@ -450,6 +455,9 @@ func (g *gen) addProc(j int, sinkless *bool) {
 	}
 	if p.Recorders && g.n(2) == 1 {
 		node.Rec = true
+	}
+	if g.n(8) == 1 {
+		node.NoSpawn = true
 	}
 	w.Nodes = append(w.Nodes, node)
 	idx := len(w.Nodes) - 1
